@@ -348,6 +348,9 @@ def run(F, rep, tier):
     rule_minmax(F, rep, R)
     rule_sets(F, rep, R)
     rep.floor(R, rep.rules[R]["obligations"], 20, "table rows")
+    from . import c08
+    c08.rule_r4(F, rep)      # the ordering primitive the sort/set walks pop their `Ordering` from: array state machines
+    c08.rule_r4b(F, rep)
     rep.assume("permutation, orderedness and set algebra over values are not decided (value-level); the comparison "
                "itself is C08; spurious stack-overflow of the key loops is C10")
     return EXPLANATION
